@@ -412,6 +412,21 @@ impl BuildConfig {
     }
 }
 
+/// Returns `true` if building `builder` produces a bundle: a spend, output or change output has
+/// been added to it, or its bundle type requires a bundle (of dummy actions) even when empty.
+fn orchard_bundle_expected(builder: &orchard::builder::Builder) -> bool {
+    !builder.spends().is_empty()
+        || !builder.outputs().is_empty()
+        || !builder.changes().is_empty()
+        || matches!(
+            builder.bundle_type(),
+            orchard::builder::BundleType::Transactional {
+                bundle_required: true,
+                ..
+            }
+        )
+}
+
 fn orchard_action_count(
     builder: &orchard::builder::Builder,
     is_coinbase: bool,
@@ -851,19 +866,21 @@ impl<P, U> Builder<P, U> {
     }
 
     /// Returns `true` if any Orchard spend, output, or change output has been
-    /// added to this builder (i.e. the transaction will carry an Orchard bundle).
+    /// added to this builder, or its padding requires a bundle even when empty
+    /// (i.e. the transaction will carry an Orchard bundle).
     fn orchard_in_use(&self) -> bool {
-        self.orchard_builder.as_ref().is_some_and(|b| {
-            !b.spends().is_empty() || !b.outputs().is_empty() || !b.changes().is_empty()
-        })
+        self.orchard_builder
+            .as_ref()
+            .is_some_and(orchard_bundle_expected)
     }
 
     /// Returns `true` if any Ironwood spend, output, or change output has been
-    /// added to this builder (i.e. the transaction will carry an Ironwood bundle).
+    /// added to this builder, or its padding requires a bundle even when empty
+    /// (i.e. the transaction will carry an Ironwood bundle).
     fn ironwood_in_use(&self) -> bool {
-        self.ironwood_builder.as_ref().is_some_and(|b| {
-            !b.spends().is_empty() || !b.outputs().is_empty() || !b.changes().is_empty()
-        })
+        self.ironwood_builder
+            .as_ref()
+            .is_some_and(orchard_bundle_expected)
     }
 
     /// Checks that the given version supports all features required by the inputs and
